@@ -829,7 +829,7 @@ def sliceStep (S : StoreSem) (s : SliceSt) : SOp → SliceSt × Obs
   | .jsSetLenNeg => (s, .rangeErr)                              -- goSliceObject.setLength: negative length
   | .jsSetLen n =>                                              -- goSliceObject.setLength
     if n = s.js.len then (s, .unit)
-    else if n < s.js.cap then ({ s with js := { s.js with len := n } }, .unit)   -- reslice of the object's own header
+    else if n ≤ s.js.cap then ({ s with js := { s.js with len := n } }, .unit)   -- fits the capacity: reslice of the object's own header
     else
       let fresh := s.view s.js ++ List.replicate (n - s.js.len) s.et.zero
       ({ s with heap := s.heap ++ [fresh], js := { addr := s.heap.length, len := n, cap := n } }, .unit)
@@ -875,10 +875,13 @@ inductive MObs where
 
 def MObs.isFail : MObs → Bool | .goPanic | .typeErr | .rangeErr => true | _ => false
 
-def mapStep (S : StoreSem) (et : GT) (m : GPs) : MOp → GPs × MObs
+/-- `isNil`: the bridged map is a nil Go map handed over by value: reads see an empty map, a write is a TypeError
+    (goMapDefineOwnProperty; an addressable nil map would be allocated in place) -/
+def mapStep (S : StoreSem) (et : GT) (isNil : Bool) (m : GPs) : MOp → GPs × MObs
   | .jsRead k => (m, match (m.get k).bind jsView with | some g => .val g | none => .undef)    -- goMapGetOwnProperty
   | .goRead k => (m, match m.get k with | some g => .val g | none => .val et.zero)
   | .jsWrite k v =>                                                            -- goMapDefineOwnProperty
+    if isNil then (m, .typeErr) else
     (match S.cv v et with
      | .ok x => (m.set k x, .unit)
      | .goPanic => (m, .goPanic)
@@ -889,12 +892,12 @@ def mapStep (S : StoreSem) (et : GT) (m : GPs) : MOp → GPs × MObs
   | .goDelete k => (m.del k, .unit)
   | .jsKeys => (m, .keys m)                                                    -- goMapEnumerate (compared sorted)
 
-def mapRun (S : StoreSem) (et : GT) (m : GPs) : List MOp → GPs × List MObs
+def mapRun (S : StoreSem) (et : GT) (isNil : Bool) (m : GPs) : List MOp → GPs × List MObs
   | [] => (m, [])
   | op :: rest =>
-    let (m', o) := mapStep S et m op
+    let (m', o) := mapStep S et isNil m op
     if o.isFail then (m', [o])
-    else let (m'', os) := mapRun S et m' rest; (m'', o :: os)
+    else let (m'', os) := mapRun S et isNil m' rest; (m'', o :: os)
 
 /-! ## bridged structs (type_go_struct.go), always through a pointer (addressable) -/
 
@@ -1135,5 +1138,30 @@ def recRun (s : RecSt) : List ROp → RecSt × List RObs
     let (s', o) := recStep s op
     let (s'', os) := recRun s' rest
     (s'', o :: os)
+
+/-! ## a JavaScript function converted to a Go func (runtime.go:510): what the calling script observes -/
+
+inductive CbKind | ret | throwRange | throwType | throwNum | throwStr | throwObj | retStr | retFrac | uncaught
+deriving DecidableEq, Repr
+
+/-- the script calls `apply(cb)` where Go does `cb(1)` for a `func(int) int`: the callback's exception is the
+    exception the script catches (same class, message, value); a return value goes through the checked
+    conversion to the Go result type -/
+inductive CbObs where
+  | ok (n : Int)
+  | caughtError (name msg : Str)        -- an Error object of that class, `instanceof` its constructor
+  | caughtValue (ty : Str) (text : Str) -- a primitive / plain object that was thrown
+  | runError (name : Str)               -- uncaught: Run returns it
+
+def callbackOutcome : CbKind → CbObs
+  | .ret => .ok 42
+  | .throwRange => .caughtError (ofAscii "RangeError") (ofAscii "r")
+  | .throwType => .caughtError (ofAscii "TypeError") (ofAscii "t")
+  | .throwNum => .caughtValue (ofAscii "number") (ofAscii "5")
+  | .throwStr => .caughtValue (ofAscii "string") (ofAscii "boom")
+  | .throwObj => .caughtValue (ofAscii "object") (ofAscii "1")
+  | .retStr => .caughtError (ofAscii "TypeError") []          -- "a" is not an int (message not compared)
+  | .retFrac => .caughtError (ofAscii "RangeError") []        -- 1.5 is not an int
+  | .uncaught => .runError (ofAscii "RangeError")
 
 end OttoVerif.C16
